@@ -137,6 +137,13 @@ def r04_1(ctx: Ctx):
                 st = OK
             elif src in (f"{sn}.current_population", f"{sn}._history[-1][-1]", f"{sn}.history[-1]") or src.startswith((f"{sn}.all_individuals[", f"{sn}.history[", f"{sn}._history[")) or " if " in norm(core.args[0]):
                 st, why = VIOLATION, f"takes the maximum of `{src}`: not the deme's complete history"
+        if st == INCONCLUSIVE:
+            # chosen by position in an array of raw fitness values: np.argmax / np.argmin return the FIRST NaN when one is
+            # present, while the order of individuals ranks NaN (a failed evaluation) below every proper value
+            arg = [c for c in ast.walk(e) if isinstance(c, ast.Call) and norm(c.func).split(".")[-1] in ("argmax", "argmin", "argsort")]
+            nan_aware = [c for c in ast.walk(e) if isinstance(c, ast.Call) and norm(c.func).split(".")[-1] in ("nanargmax", "nanargmin", "isnan", "nan_to_num")]
+            if arg and not nan_aware and any(isinstance(x, ast.Attribute) and x.attr in ("fitness", "fitnesses") for x in ast.walk(e)):
+                st, why = VIOLATION, f"picks the best by `{norm(arg[0])[:60]}` over raw fitness values: with a NaN fitness in the history (a failed evaluation) the position of the first NaN is returned, so an individual that is worse than every properly evaluated one is reported as the best"
     obs.append(ctx.ob("R04.1", b, b.node, status=st, detail="deme best = max over all individuals of its history" if st == OK else f"AbstractDeme.best_individual {why}: not the maximum over the deme's complete history", construct="deme-best"))
     ai = base.methods.get("all_individuals")
     v = _reduced_return(ai)
@@ -246,9 +253,44 @@ def r04_4(ctx: Ctx):
     okf = fun.endswith(".best_individual.fitness")
     same = okx and okf and x[: -len(".genome")] == fun[: -len(".fitness")]
     obs.append(ctx.ob("R04.4", f, kw["fun"], status=OK if same else VIOLATION, detail="x and fun are genome and fitness of the same best individual" if same else f"minimize() reports x=`{norm(kw['x'])}` and fun=`{norm(kw['fun'])}`: not genome and fitness of the tree's one best individual", construct="x-fun"))
-    okn = nit.endswith(".metaepoch_count")
-    obs.append(ctx.ob("R04.4", f, kw.get("nit", calls[0]), status=OK if okn else VIOLATION, detail="nit = metaepoch counter" if okn else f"nit=`{nit}`", construct="nit"))
+    nv = kw.get("nit")
+    hops = 0
+    while isinstance(nv, ast.Name) and len(defs.get(nv.id, [])) == 1 and hops < 3:
+        nv = defs[nv.id][0]
+        hops += 1
+    xv = kw["x"]
+    tree_txt = x[: -len(".best_individual.genome")] if okx else None
+    okn = isinstance(nv, ast.Attribute) and nv.attr == "metaepoch_count" and (tree_txt is None or canon(nv.value, defs) == tree_txt)
+    definite = nv is None or isinstance(nv, (ast.Constant, ast.IfExp, ast.BinOp)) or (isinstance(nv, ast.Name) and nv.id in f.params())
+    obs.append(ctx.ob("R04.4", f, kw.get("nit", calls[0]), status=OK if okn else VIOLATION if definite else INCONCLUSIVE, detail="nit = metaepoch counter" if okn else f"nit=`{norm(kw['nit'])[:80] if kw.get('nit') is not None else '?'}`: not the number of metaepochs the tree performed (an iteration LIMIT is not a count: the run may have stopped on another condition first)", construct="nit"))
     return obs
+
+
+def _k_positive(k: ast.AST):
+    """Is the count handed to topk() at least 1 whenever the configured number (k_elites / the population size) is?
+    True / False (it can be zero: `min(k, size - 1)`, `k - 1`, `k // 2`) / None (not read)."""
+    t = canon(k)
+    if isinstance(k, ast.Constant):
+        return isinstance(k.value, int) and k.value >= 1
+    if isinstance(k, (ast.Name, ast.Attribute)):
+        return True  # a configured count / a size: positive by the property's premise (at least one elite, non-empty population)
+    if isinstance(k, ast.Call) and norm(k.func) in ("len", "int") and len(k.args) == 1:
+        return True if norm(k.func) == "len" else _k_positive(k.args[0])
+    if isinstance(k, ast.Call) and norm(k.func) in ("min", "max") and len(k.args) >= 2:
+        parts = [_k_positive(a) for a in k.args]
+        if norm(k.func) == "max":
+            return True if any(p is True for p in parts) else None if any(p is None for p in parts) else False
+        return False if any(p is False for p in parts) else None if any(p is None for p in parts) else True
+    if isinstance(k, ast.BinOp):
+        if isinstance(k.op, ast.Sub) and isinstance(k.right, ast.Constant) and isinstance(k.right.value, (int, float)) and k.right.value >= 1:
+            return False  # n - 1 is zero for n = 1
+        if isinstance(k.op, (ast.FloorDiv, ast.Div)) and isinstance(k.right, ast.Constant) and isinstance(k.right.value, (int, float)) and k.right.value > 1:
+            return False
+        if isinstance(k.op, ast.Add) and any(isinstance(x, ast.Constant) and isinstance(x.value, int) and x.value >= 1 for x in (k.left, k.right)):
+            return True
+        if isinstance(k.op, ast.Mult):
+            return None
+    return None
 
 
 def _dom(e: ast.AST, atoms: set[str]):
@@ -264,6 +306,11 @@ def _dom(e: ast.AST, atoms: set[str]):
         if e.func.attr == "topk" and len(e.args) == 1:
             if isinstance(e.args[0], ast.Constant) and isinstance(e.args[0].value, int) and e.args[0].value < 1:
                 return set()
+            kp = _k_positive(e.args[0])
+            if kp is False:
+                return set()  # the count can be zero: nothing of the operand is guaranteed to survive
+            if kp is None:
+                return None
             return _dom(e.func.value, atoms)
         if e.func.attr == "copy" and not e.args:
             return _dom(e.func.value, atoms)
